@@ -133,6 +133,9 @@ def run(F):
                    "-inf": dict(is_finite=False, is_sign_negative=True, is_nan=False, is_infinite=True),
                    "negative": dict(is_finite=True, is_sign_negative=True, is_nan=False, is_infinite=False),
                    "non-negative finite": dict(is_finite=True, is_sign_negative=False, is_nan=False, is_infinite=False)}
+        for c_ in CLASSES.values():
+            c_["is_sign_positive"] = not c_["is_sign_negative"]
+            c_["is_normal"] = c_["is_finite"]          # (subnormal / zero distinctions do not matter for the classes above)
         INVALID = [c for c in CLASSES if c != "non-negative finite"]
         PROV = ("to_reduced", "iter", "next", "into_iter", "deref", "clone", "as_ref", "borrow", "copied", "cloned", "view", "into_value")
 
@@ -185,7 +188,7 @@ def run(F):
         for bi, t in b.calls():
             p, tr, name = callee(t)
             res = t["dest"]["l"]
-            if name in ("is_finite", "is_sign_negative", "is_nan", "is_infinite"):
+            if name in ("is_finite", "is_sign_negative", "is_nan", "is_infinite", "is_sign_positive"):
                 params = params_of(t["args"][0])
                 for sb, true_t, false_t in switch_on(res):
                     sites.append((params, t["span"], name, {c: (true_t if CLASSES[c][name] else false_t) for c in CLASSES}))
@@ -322,7 +325,7 @@ def run(F):
             if tt["k"] != "switch" or tt["op"]["k"] not in ("copy", "move"):
                 continue
             for d in defs.of(tt["op"]["place"]["l"]):
-                if d[0] == "stmt" and d[4]["k"] == "binop" and d[4]["op"] == "Eq":
+                if d[0] == "stmt" and d[4]["k"] == "binop" and d[4]["op"] in ("Eq", "Ne"):
                     srcs = []
                     for o in (d[4]["a"], d[4]["b"]):
                         if o["k"] in ("copy", "move"):
@@ -332,7 +335,9 @@ def run(F):
                     if "Components::components" in flat and ("map_or" in flat or "len" in flat):
                         tv = {v: bb for v, bb in tt["targets"]}
                         true_t = tt["otherwise"] if "0" in tv else tv.get("1")
-                        edges.add((sb, true_t))
+                        false_t = tv.get("0", tt["otherwise"])
+                        # the edge on which the two numbers are equal: true edge of `==`, false edge of `!=`
+                        edges.add((sb, true_t if d[4]["op"] == "Eq" else false_t))
         n_vm = len(edges)
         if not edges:
             r.inst("validate_moles|eq", b.file_line(), "violation")
